@@ -1,7 +1,7 @@
 (* C09 (extension) — the allocation "up to iteration k" (System.get_allocation(idx), repaired by fix 34567c7: the iteration number
    used to be ignored).  Only theorem statements; proofs are in Proofs/CostUpto.v. *)
 From Coq Require Import List Arith ZArith QArith Qcanon.
-From AmiscV Require Import Cost CostUpto.
+From AmiscV Require Import Cost CostUpto Grid GridFormer.
 Import ListNotations.
 
 (* asking for the whole history gives the full account *)
@@ -22,3 +22,14 @@ Theorem C09_alloc_ignoring_k_refuted :
   exists (c : Qc) (ns : list nat), allocation (map (fun n => repeat c n) ns) <> actual (firstn 1 (map (fun n => repeat c n) ns)).
 Proof. exact CostUpto.alloc_ignoring_k_refuted. Qed.
 Print Assumptions C09_alloc_ignoring_k_refuted.
+
+(* the level-zero rule of SparseGrid.refine before fix 516fd12 (its grid point handed out whether or not an evaluation is stored; only
+   duplicates inside one batch removed) evaluates a point twice as soon as two activations share a level-zero data part at one model
+   fidelity - which is what indices differing only in a surrogate-fidelity coordinate do; the repaired rule does not *)
+Theorem C09_zero_level_rule_refuted :
+  exists (kpl : nat) (latent : list nat) (batches : list (list (list nat * list nat))),
+    ~ NoDup (snd (run_history_former (fun k : key => k) [] kpl false latent batches)) /\
+    NoDup (snd (run_history (fun k : key => k) [] kpl false latent batches)).
+Proof. exact GridFormer.zero_level_rule_refuted. Qed.
+Print Assumptions C09_zero_level_rule_refuted.
+
